@@ -61,14 +61,14 @@ func (f *FieldUpdater) Merge(dst, src proto.Message) {
 	if f.writableFields != nil && len(f.writableFields.Paths) == 0 {
 		// nothing is writable, but the reset mask is not affected by the writable fields
 		if f.resetMask != nil {
-			fmutils.Prune(dst, f.resetMask.Paths)
+			fmutils.Prune(dst, normalPaths(f.resetMask.Paths))
 		}
 		return
 	}
 
 	var writableMask fmutils.NestedMask
 	if f.writableFields != nil {
-		writableMask = fmutils.NestedMaskFromPaths(f.writableFields.Paths)
+		writableMask = fmutils.NestedMaskFromPaths(normalPaths(f.writableFields.Paths))
 	}
 
 	// only allow writing writable fields by resetting non-writable fields in src
@@ -89,7 +89,7 @@ func (f *FieldUpdater) Merge(dst, src proto.Message) {
 		return
 	}
 
-	nestedMask := fmutils.NestedMaskFromPaths(mask.GetPaths())
+	nestedMask := fmutils.NestedMaskFromPaths(normalPaths(mask.GetPaths()))
 	nestedMask.Filter(src)
 	proto.Merge(dst, src)
 
@@ -97,7 +97,7 @@ func (f *FieldUpdater) Merge(dst, src proto.Message) {
 	pruneEmpty(dst, src, nestedMask)
 
 	if f.resetMask != nil {
-		fmutils.Prune(dst, f.resetMask.Paths)
+		fmutils.Prune(dst, normalPaths(f.resetMask.Paths))
 	}
 
 	return
